@@ -39,11 +39,12 @@ HARNESSES["hidden_state"] = {"srcs": ["src/harness/hidden_state.cc"], "variant":
 HARNESSES["fault_enum"] = {"srcs": ["src/harness/fault_enum.cc"], "variant": "asan_rec"}
 HARNESSES["fault_enum_pat"] = {"srcs": ["src/harness/fault_enum.cc"], "variant": "cl_pattern"}
 HARNESSES["fault_enum_zero"] = {"srcs": ["src/harness/fault_enum.cc"], "variant": "cl_zero"}
+HARNESSES["env_enum"] = {"srcs": ["src/harness/env_enum.cc"], "variant": "asan"}
 HARNESSES["fixed_posix"] = {"srcs": ["src/harness/fixed_posix.cc"], "variant": "asan"}
 HARNESSES["civil_conf"] = {"srcs": ["src/harness/civil_conf.cc"], "variant": "asan"}
 
 SETUP_VARIANTS = ["asan", "plain", "sched", "asan_rec", "cl_pattern", "cl_zero"]
-SETUP_HARNESSES = ["zone_conf", "civil_conf", "fixed_posix", "sched_explore", "hidden_state", "fault_enum", "fault_enum_pat", "fault_enum_zero"]
+SETUP_HARNESSES = ["zone_conf", "civil_conf", "fixed_posix", "sched_explore", "hidden_state", "fault_enum", "fault_enum_pat", "fault_enum_zero", "env_enum"]
 
 E1_LEVEL_NOTE = ("Trusted base: the reference model in /verif/src/common (128-bit calendar, RFC 9636 TZif reader, "
                  "POSIX TZ evaluator - written from the specifications, self-checked by a brute-force day walk), "
@@ -268,6 +269,15 @@ CHECKS["C12"] = {
     "assumptions": ["enough memory for the data length the header declares (inputs declaring more than the cap are skipped)"],
     "vacuity": c12_vac, "budget": {"quick": 400, "thorough": 3000},
 }
+
+CHECKS["C19"] = mk_simple("C19", "env_enum", "zone names resolve as documented; failures fall back to UTC",
+    "complete product TZDIR in {unset, empty, valid dir, missing dir, valid dir with trailing /} x TZ in {unset, empty, X, :X, ::X, localtime, :localtime, invalid, absolute path, UTC, ':', fixed name} x LOCALTIME in {unset, valid path, invalid path, empty, relative name} = 300 environments, each in a fresh exec of the probe; in each: 29 names (relative valid/missing, absolute valid/missing, file:-prefixed, empty, a directory, 0-byte file, files truncated at each structural boundary, garbage, a leap-second file, ':'-prefixed, UTC, UTC0, fixed names, case/slash variants) + local_time_zone() + default-constructed zone; class = call kind x expected outcome",
+    "Every (environment, name) pair is resolved by a reference resolver written from the header comments (name -> path -> reference TZif reader); returned bool, UTC identity, name() and the offsets/abbreviations at three instants must match; a second load in the same process must agree.",
+    ["C19:load:zone", "C19:load:fallback-utc", "C19:load:utc", "C19:local:zone", "C19:local:fallback-utc"],
+    "Trusted base: the reference resolver (40 lines) and reference TZif reader; what /etc/localtime and /usr/share/zoneinfo are on the machine is read, not assumed. Runs as root, so permission-denied files are not covered.",
+    engine="E4", min_eval=5000,
+    technique="exhaustive configuration enumeration: the complete product of environment settings x zone names, each executed in a fresh process, against a reference resolver")
+CHECKS["C19"]["level"] = "fault_enumeration"
 
 # C10 always runs in the sanitizer build: the sanitizer is its oracle.
 CHECKS["C10"]["steps"] = lambda tier: [{"harness": "zone_conf", "args": []}]
